@@ -189,7 +189,9 @@ def invoke(sess: t.Any, role: str, call: t.Dict[str, t.Any], rnd: random.Random)
             elif k == "notice":
                 obs["ret"] = sess.extended_response(i, name=NOTICE, result_code=s.LDAPResultCode(rnd.choice((2, 52, 8, 80))), diagnostics_message=msggen.r_text(rnd) or None)
             elif k == "entry":
-                obs["ret"] = sess.search_result_entry(i, msggen.r_text(rnd), [s.PartialAttribute(msggen.r_attr(rnd), [msggen.r_bytes(rnd)])], controls=ctl)
+                pattrs = rnd.choice(([s.PartialAttribute(msggen.r_attr(rnd), [msggen.r_bytes(rnd)])], [s.PartialAttribute(msggen.r_attr(rnd), [])], [],
+                                     [s.PartialAttribute("cn", [b"a", b"a"]), s.PartialAttribute("sn", [])]))
+                obs["ret"] = sess.search_result_entry(i, msggen.r_text(rnd), pattrs, controls=ctl)
             elif k == "ref":
                 obs["ret"] = sess.search_result_reference(i, [msggen.r_text(rnd)], controls=ctl)
             elif k == "done":
